@@ -17,6 +17,7 @@ modulo |x| = |y| = 1, sin^2 + cos^2 = 1:
 Not decided: unit length on the linear-fallback arm (within epsilon only), NaN freedom for inputs that are not exactly unit, the spin variant's
 integer-multiple-of-pi reasoning, squad / intermediate.
 """
+import os
 from fractions import Fraction
 from laneflow import term as tm
 from laneflow import poly as P
@@ -180,6 +181,16 @@ def interp_case(fn_, T, lay='xyzw', negate=True, spin=False):
                     return 1 if v == 'lt' else -1
             return None
 
+        def paths_sg(kern):
+            """decision paths, split by the sign of x.y where the path does not fix it although the result depends on |x.y|"""
+            for asg, infos, got, cx in paths(kern):
+                sg_ = sign_of_dot(asg, infos)
+                if sg_ is None and any(P.atom_key(a_)[1][1] in (dot, -dot) for g in got for a_ in Q4.fabs_atoms(g)):
+                    yield asg, infos, got, cx, 1
+                    yield asg, infos, got, cx, -1
+                else:
+                    yield asg, infos, got, cx, sg_
+
         def regime(asg, infos):
             return ', '.join('%s %s %s' % (P.show_poly(infos[at][0], limit=2), '<' if v == 'lt' else '>', P.show_poly(infos[at][1], limit=2)) for at, v in asg.items() if at[0] == 'pair')[:260]
         def path_witness(d, asg, infos):
@@ -195,12 +206,11 @@ def interp_case(fn_, T, lay='xyzw', negate=True, spin=False):
         # ---- end points -----------------------------------------------------------------------------------------------------------------
         for kern, nm_, tgt in ((k0, 'a=0', 'x'), (k1, 'a=1', 'y')):
             seen = set()
-            for asg, infos, got, cx in paths(kern):
-                key = tuple(g.key() for g in got)
+            for asg, infos, got, cx, sg in paths_sg(kern):
+                key = tuple(g.key() for g in got) + (sg,)
                 if key in seen:
                     continue
                 seen.add(key)
-                sg = sign_of_dot(asg, infos)
                 want = x if tgt == 'x' else tuple(q_.scale(sg if (sg is not None and negate) else 1) for q_ in y)
                 ok = True
                 spin_sign = None
@@ -230,12 +240,11 @@ def interp_case(fn_, T, lay='xyzw', negate=True, spin=False):
         seen = set()
         nsph = 0
         sph_rows = []
-        for asg, infos, got, cx in paths(k):
-            key = tuple(g.key() for g in got)
+        for asg, infos, got, cx, sg in paths_sg(k):
+            key = tuple(g.key() for g in got) + (sg,)
             if key in seen:
                 continue
             seen.add(key)
-            sg = sign_of_dot(asg, infos)
             got = tuple(Q4.deep(g, lambda q_: abs_by_sign(q_, dot, sg, cx), cx) for g in got)
             thetas = set()
             for g in got:
@@ -263,7 +272,6 @@ def interp_case(fn_, T, lay='xyzw', negate=True, spin=False):
                         q_, r_ = P.divmod_poly(arg, a)
                         if r_.is_zero() and not q_.is_zero() and (q_ - theta).atoms() and not any(P.atom_key(b)[0] == 'in' and P.atom_key(b)[1] in ('x', 'y') for b in (q_ - theta).atoms()):
                             A = arg
-            sg = sign_of_dot(asg, infos)
             z = tuple(q_.scale(sg if (sg is not None and negate) else 1) for q_ in y)
             if kth[0] == 'fn:acos':
                 c = kth[1][1]
@@ -293,17 +301,90 @@ def interp_case(fn_, T, lay='xyzw', negate=True, spin=False):
                 res.append(R.ob(pid + '.shorter_arc', 'shorter_arc', st_,
                                 'the angle is acos(x . z) with z = %sy on the path where x.y %s 0, i.e. acos(|x.y|) <= pi/2' % ('-' if sg == -1 else '', '<' if sg == -1 else '>=') if okc else
                                 'cos(theta) - x.z = %s (sign of x.y on the path: %s)' % (P.show_poly(d, limit=3), sg), kernel=k.source()))
+            def sph_witness(resid):
+                """x = 1, y = (c, s, 0, 0) with (c, s) a rational point of the circle on the side of this path, a = 2 (so sin / cos of A = 2 theta [+ 2 k pi] are rational):
+                an exact evaluation of the residual that is non-zero proves the identity fails there"""
+                xat = [list(q_.t)[0][0] for q_ in x]
+                yat = [list(q_.t)[0][0] for q_ in y]
+                for cv, sv in ((Fraction(3, 5), Fraction(4, 5)), (Fraction(5, 13), Fraction(12, 13)), (Fraction(-3, 5), Fraction(4, 5)), (Fraction(-5, 13), Fraction(12, 13)), (Fraction(4, 5), Fraction(-3, 5))):
+                    if sg is not None and (cv < 0) != (sg == -1):
+                        continue
+                    env = {xat[0]: Fraction(1), xat[1]: Fraction(0), xat[2]: Fraction(0), xat[3]: Fraction(0), yat[0]: cv, yat[1]: sv, yat[2]: Fraction(0), yat[3]: Fraction(0)}
+                    try:
+                        ok_path = True
+                        for at, v in asg.items():
+                            if at[0] != 'pair':
+                                continue
+                            val = P.eval_poly(infos[at][0] - infos[at][1], env)
+                            if not ((val < 0) if v == 'lt' else (val > 0)):
+                                ok_path = False
+                                break
+                        if not ok_path:
+                            continue
+                        cz = P.eval_poly(c, env)                 # cos(theta) on this path
+                        sz2 = 1 - cz * cz
+                        sz = P._isqrt_frac(sz2)
+                        if sz is None or sz == 0:
+                            continue
+                        r_ = resid
+                        aid = list(a.t)[0][0]
+                        for a_val, k_val in ((3, 1), (2, 0), (3, 0), (5, 1)):
+                            import math
+
+                            def cheb(m):
+                                # (sin(m theta), cos(m theta)) from (sz, cz)
+                                sn, cs_ = Fraction(0), Fraction(1)
+                                for _ in range(abs(m)):
+                                    sn, cs_ = sn * cz + cs_ * sz, cs_ * cz - sn * sz
+                                return (sn if m >= 0 else -sn), cs_
+
+                            def subst_all(pp, depth=0):
+                                pp = pp.subst(aid, Poly.const(a_val))
+                                for at_ in sorted(pp.atoms()):
+                                    ka = P.atom_key(at_)
+                                    if ka[0] == 'sitofp':
+                                        pp = pp.subst(at_, Poly.const(k_val))
+                                for at_ in sorted(pp.atoms()):
+                                    ka = P.atom_key(at_)
+                                    if ka[0] in ('fn:sin', 'fn:cos') and len(ka) == 2:
+                                        arg = subst_all(ka[1][1], depth + 1) if depth < 3 else ka[1][1]
+                                        mth = arg.t.get((tha,), Fraction(0))
+                                        rest = arg - Poly({(tha,): mth})
+                                        if not rest.is_const() or Fraction(mth).denominator != 1:
+                                            raise P.CantEval('trig argument')
+                                        rc = float(rest.cval() if rest.t else 0) / math.pi
+                                        if abs(rc - round(rc)) > 1e-6:
+                                            raise P.CantEval('trig argument not a multiple of pi')
+                                        sn, cs_ = cheb(int(mth))
+                                        sg_ = -1 if int(round(rc)) % 2 else 1
+                                        pp = pp.subst(at_, Poly.const((sn if ka[0] == 'fn:sin' else cs_) * sg_))
+                                return pp
+                            try:
+                                rr = subst_all(r_)
+                                val = P.eval_poly(rr, env)
+                            except P.CantEval:
+                                continue
+                            if val != 0:
+                                return 'x = (1, 0, 0, 0), y = (%s, %s, 0, 0), a = %d%s: residual %s' % (cv, sv, a_val, (', k = %d' % k_val) if spin else '', val)
+                        continue
+                    except (P.CantEval, Exception) as ex_:
+                        import sys, traceback
+                        if os.environ.get('C13_DEBUG'): traceback.print_exc()
+                        continue
+                return None
             n2 = nrm(Q4.qnorm2(got) - ONE)
-            res.append(R.ob(pid + '.unit_length', 'unit_length', R.PROVED if n2.is_zero() else R.UNDECIDED,
-                            '|result|^2 == 1 for unit x, y  [%s]' % rg if n2.is_zero() else 'residual %s' % P.show_poly(n2, limit=4), kernel=k.source()))
+            wn = None if n2.is_zero() else sph_witness(n2)
+            res.append(R.ob(pid + '.unit_length', 'unit_length', R.PROVED if n2.is_zero() else (R.REFUTED if wn else R.UNDECIDED),
+                            '|result|^2 == 1 for unit x, y  [%s]' % rg if n2.is_zero() else 'residual %s%s' % (P.show_poly(n2, limit=4), (' -- |result|^2 - 1 is non-zero at ' + wn) if wn else ''), kernel=k.source()))
             sA, cA = Poly.atom(('fn:sin', ('P', A))), Poly.atom(('fn:cos', ('P', A)))
             dx = nrm(sum((p_ * q_ for p_, q_ in zip(x, got)), Poly()) - cA)
             # cos((1-a) theta) = cos(theta) cos(A) + sin(theta) sin(A)
             dz = nrm(sum((p_ * q_ for p_, q_ in zip(z, got)), Poly()) - (c * cA + sin_t * sA))
             oka = dx.is_zero() and dz.is_zero()
-            res.append(R.ob(pid + '.angular_speed', 'angular_speed', R.PROVED if oka else R.UNDECIDED,
+            wa = None if oka else (sph_witness(dx) if not dx.is_zero() else sph_witness(dz))
+            res.append(R.ob(pid + '.angular_speed', 'angular_speed', R.PROVED if oka else (R.REFUTED if wa else R.UNDECIDED),
                             'x . result == cos(a theta) and z . result == cos((1 - a) theta): the result is on the arc x -> z at the fraction a of the angle  [%s]' % rg if oka else
-                            'x.result - cos(a theta) = %s ; z.result - cos((1-a) theta) = %s' % (P.show_poly(dx, limit=3), P.show_poly(dz, limit=3)), kernel=k.source()))
+                            'x.result - cos(a theta) = %s ; z.result - cos((1-a) theta) = %s%s' % (P.show_poly(dx, limit=3), P.show_poly(dz, limit=3), (' -- non-zero at ' + wa) if wa else ''), kernel=k.source()))
             # guard: acos only under c <= 1 - epsilon (and c >= 0 when the arc is shortened)
             hi = None
             for at, v in asg.items():
